@@ -319,7 +319,12 @@ def runCase (c : CaseData) (st : Stats) : IO Stats := do
     if !(top.ports.any (·.name == cn)) then return ← diff st "testbench" s!"clock '{cn}' of the testbench is not a port of top"
   -- 3. replay
   match replay k top hdr items with
-  | .error e => return ← pfail st "vhdl_runtime_error" e
+  | .error e =>
+    -- static errors that the interpreter meets on first evaluation: an operator whose operand types cannot be determined
+    -- (`("00" & x) = "010"` with x : std_logic has several interpretations -> not legal VHDL)
+    if (e.splitOn "type cannot be determined").length > 1 || (e.splitOn "type is not determined").length > 1 then
+      return ← pfail st "illegal_vhdl" s!"illegal VHDL: ambiguous operand types: {e}"
+    else return ← pfail st "vhdl_runtime_error" e
   | .ok r =>
     st := { st with ops := st.ops + r.checks, definedBits := st.definedBits + r.definedBitsChecked, sets := st.sets + r.sets, edges := st.edges + r.edges,
                     deltas := st.deltas + r.deltas, procRuns := st.procRuns + r.procRuns }
@@ -334,7 +339,7 @@ def runCase (c : CaseData) (st : Stats) : IO Stats := do
         else if r.fails.any (fun x => x.got.contains 'U') then "check_mismatch_uninitialised"
         else "check_mismatch_metavalue"
       let f := if what == "check_mismatch_value" then (r.fails.find? (·.hard)).getD f else f
-      return ← pfail st what s!"vector_line={f.line} signal={f.sig} expected={f.expected} got={f.got} time_fs={f.timeFs} failing_checks={r.fails.length} of {r.checks}"
+      return ← pfail st what s!"vector_line={f.line} signal={f.sig} expected={f.expected} got={f.got} time_fs={f.timeFs} failing_checks={r.fails.length} of {r.checks} vhdl_has_metavalue={if r.metaPresent then 1 else 0}"
 
 def stripPayload (l : String) : String := if l.startsWith "| " then (l.drop 2).toString else if l == "|" then "" else l
 
